@@ -247,6 +247,18 @@ def snapshot(doc, norm7=False, errors=True, derive_matrix=False):
     return out
 
 
+EXACT = [False]
+
+
+def diff_exact(a, b, limit=8):
+    """diff without the tolerance for derived matrices: for states that must be bit-identical (a save of an unedited model)"""
+    EXACT[0] = True
+    try:
+        return diff(a, b, limit=limit)
+    finally:
+        EXACT[0] = False
+
+
 def diff(a, b, path='', out=None, limit=8):
     """first few paths at which two snapshots differ"""
     if out is None:
@@ -269,7 +281,7 @@ def diff(a, b, path='', out=None, limit=8):
                 diff(x, y, '%s[%d]' % (path, i), out, limit)
     else:
         same = a == b or (isinstance(a, float) and isinstance(b, float) and a != a and b != b)
-        if not same and '.matrix[' in path and isinstance(a, (int, float)) and isinstance(b, (int, float)):
+        if not same and not EXACT[0] and '.matrix[' in path and isinstance(a, (int, float)) and isinstance(b, (int, float)):
             # derived node matrices: float32 products of float32-rounded parameters
             same = abs(a - b) <= 2e-5 * (1.0 + abs(a) + abs(b))
         if not same:
